@@ -1,0 +1,38 @@
+// Copyright 2020-2025 Buf Technologies, Inc.
+//
+// Licensed under the Apache License, Version 2.0 (the "License");
+// you may not use this file except in compliance with the License.
+// You may obtain a copy of the License at
+//
+//      http://www.apache.org/licenses/LICENSE-2.0
+//
+// Unless required by applicable law or agreed to in writing, software
+// distributed under the License is distributed on an "AS IS" BASIS,
+// WITHOUT WARRANTIES OR CONDITIONS OF ANY KIND, either express or implied.
+// See the License for the specific language governing permissions and
+// limitations under the License.
+
+
+//go:build verif
+
+package registrylogout
+
+// Contracts for the gocv verifier (see /verif/DESIGN.md), author ca-r4g. Comment-only.
+// Model of the .netrc edits (ghost.rg_nr..., rg_wf...): /verif/specs/R4g.spec; netrc.DeleteMachineForName: verified in
+// private/pkg/netrc/zz_verif_contracts_r4g.go.
+//
+// C19: "This command removes any BSR credentials from your .netrc file. The [domain] argument will default to buf.build if
+// not specified": logging out of registry R removes the entries R and go.R (the Go module proxy of the same registry) and
+// no entry of any other host; nothing is ever added; only the user's .netrc is written; an invalid domain argument is an
+// error and nothing is touched.
+//@ func run(ctx, container, flags) (err)
+//@   property C19
+//@   modifies heap, ghost.j_osStat, ghost.j_osWrite, ghost.fail, ghost.wfail, ghost.w_statFails, ghost.w_statErr, ghost.rg_nrRemoved, ghost.rg_nrEdited, ghost.rg_nrRendered, ghost.rg_nrRenderAdds, ghost.rg_nrRenderRemoved, ghost.rg_nrText, ghost.rg_wfN, ghost.rg_wfPath, ghost.rg_wfData, ghost.rg_wfErr
+//@   ensures removes-only-this-registrys-entries: forall s string :: s in ghost.rg_nrRemoved && !(s in old(ghost.rg_nrRemoved)) ==> s == rg_logoutRemote(container) || s == "go." + rg_logoutRemote(container)
+//@   ensures nothing-is-ever-added: ghost.rg_nrAddN == old(ghost.rg_nrAddN)
+//@   ensures invalid-domain-rejected-nothing-touched: container.NumArgs() == 1 && second(netext.ValidateHostname(container.Arg(0))) != nil ==> err == second(netext.ValidateHostname(container.Arg(0))) && ghost.rg_nrRemoved == old(ghost.rg_nrRemoved) && ghost.rg_wfN == old(ghost.rg_wfN)
+//@   ensures written-only-to-the-users-netrc: ghost.rg_wfN != old(ghost.rg_wfN) ==> second(netrc.GetFilePath(container)) == nil && ghost.rg_wfPath == first(netrc.GetFilePath(container))
+//@   ensures at-most-two-writes: ghost.rg_wfN <= old(ghost.rg_wfN) + 2
+//@   ensures success-means-no-failed-write: err == nil ==> !ghost.wfail || old(ghost.wfail)
+//@   canary ensures err != nil
+//@   canary ensures err == nil
